@@ -1043,8 +1043,10 @@ class _L1DynamicsService(_CollinearDynamicsService):
             [min_x, max_x] interval for root finding in nondimensional units.
             L1 is between the primaries: -mu < x < 1-mu.
         """
-        # L1 is between the primaries: -mu < x < 1-mu
-        return [-self.mu + 0.01, 1 - self.mu - 0.01]
+        # L1 is between the primaries: -mu < x < 1-mu, at distance gamma > rH/2
+        # from the secondary, where rH = (mu/3)^(1/3) is the Hill radius.
+        r_hill = (self.mu / 3.0) ** (1.0 / 3.0)
+        return [-self.mu + 0.01, 1 - self.mu - 0.5 * r_hill]
 
     @property
     def _gamma_poly_def(self) -> Tuple[list, tuple]:
@@ -1117,8 +1119,10 @@ class _L2DynamicsService(_CollinearDynamicsService):
             [min_x, max_x] interval for root finding in nondimensional units.
             L2 is beyond the smaller primary: x > 1-mu.
         """
-        # L2 is beyond the smaller primary: x > 1-mu
-        return [1 - self.mu + 0.001, 2.0]
+        # L2 is beyond the smaller primary: x > 1-mu, at distance gamma > rH/2
+        # from it, where rH = (mu/3)^(1/3) is the Hill radius.
+        r_hill = (self.mu / 3.0) ** (1.0 / 3.0)
+        return [1 - self.mu + 0.5 * r_hill, 2.0]
 
     @property
     def _gamma_poly_def(self) -> Tuple[list, tuple]:
